@@ -462,6 +462,24 @@ class Interp:
             raise AnalysisError("%s:%d unsupported loop iterable %s" % (func.qualname, st.lineno, unparse(st.iter)))
         raise AnalysisError("%s:%d unsupported statement %s" % (func.qualname, st.lineno, type(st).__name__))
 
+    def _extremum(self, arr, name):
+        """extremum of an array over the cells: the common value when every entry is the same expression without
+        reference to the cell (a constant array), otherwise a quantity the analysis does not resolve"""
+        if len(arr.segs) == 1:
+            v = arr.segs[0][2]
+            alg = getattr(self.dom, "alg", None)
+            if alg is not None and not any("@" in alg.atoms[a].name for a in alg.atoms_of(v)):
+                return v
+        self._nred = getattr(self, "_nred", 0) + 1
+        pos = False
+        alg = getattr(self.dom, "alg", None)
+        if alg is not None:
+            try:
+                pos = all(alg.sign(sg[2]) in ("+", ">=0") for sg in arr.segs)      # extremum of |x|, x^2 ...: not negative
+            except Exception:
+                pos = False
+        return self.dom.opaque("%s_over_cells" % name, [self.dom.const(self._nred)], pos)
+
     def _elem_body(self, st, env, func, depth):
         """body of a loop over the ENTRIES of point-wise arrays, run once for the generic entry.  A `break` anywhere
         in it (conditional or not) leaves the entries after the first one that meets the condition uncomputed: what
@@ -1155,9 +1173,7 @@ class Interp:
                     raise AnalysisError("%s:%d mean of an array of unknown length" % (func.qualname, ln))
                 return self.dom.div(s_, cnt)
             if name in ("min", "max") and isinstance(obj, SArr) and not args and not kwargs:
-                # extremum over the cells: a value the analysis does not resolve (a fresh uninterpreted quantity)
-                self._nred = getattr(self, "_nred", 0) + 1
-                return self.dom.opaque("%s_over_cells" % name, [self.dom.const(self._nred)])
+                return self._extremum(obj, name)
             if name == "astype" and len(args) == 1:
                 # value unchanged in real arithmetic; the conversion is recorded for the dtype rules
                 t = args[0]
@@ -1385,6 +1401,8 @@ class Interp:
             e.violation = ("VEC-LAYOUT", func.qualname, "np.reshape of a (2, n) vector field to %r (line %d) re-reads the memory row by row: it pairs (u0,u1), (u2,u3) ... instead of (u_i, v_i) -- for more than one entry the components of different faces are mixed (a single pair [u, v] happens to come out right)" % (tuple(shp) if isinstance(shp, (list, tuple)) else shp, ln),
                            "vec-reshape", {"C03", "C13", "C15", "C16"})
             raise e
+        if base in ("max", "amax", "min", "amin") and len(args) == 1 and isinstance(args[0], SArr) and not kwargs:
+            return self._extremum(args[0], "max" if base in ("max", "amax") else "min")
         if base in ("max", "amax", "min", "amin") and args and isinstance(args[0], Vec) and kwargs.get("axis", None) == 0:
             # over the COMPONENTS of a vector field (axis 0), entry by entry: point-wise in the face / cell index
             self._noncov((ln, "extremum over the components of a vector"))
